@@ -139,3 +139,35 @@ def e37_step(sched, ep: Ep, inp, t6):
             "dlv": len([d for d in dl if d["system"] == inbound_sys]) if inbound_sys is not None else len(dl),
             "dlv_other": len([d for d in dl if d["system"] != inbound_sys]) if inbound_sys is not None else 0,
             "cs": ep.cs}
+
+
+# --------------------------------------------------------------------------- GEM helpers
+def s1f14_body(ack, from_host):
+    return b"\x01\x02\x21\x01" + bytes([ack]) + (b"\x01\x00" if from_host else b"\x01\x02\x41\x04mdln\x41\x03rev")
+
+
+def establish(sched, ep: Ep):
+    """Bring a handler endpoint to SELECTED + COMMUNICATING (driver plays the peer). Returns True on success."""
+    h = ep.handler
+    h.enable()
+    ep.link.connect()
+    sched.settle()
+    if ep.settings.is_active:
+        for f in ep.link.take_frames():
+            if f.get("stype") == 1:
+                ep.link.feed(link.hsms_frame(stype=2, system=f["system"]))
+    else:
+        ep.link.feed(link.hsms_frame(stype=1, system=ep.fresh_sys()))
+    sched.settle()
+    peer_is_host = not h._is_host if hasattr(h, "_is_host") else True
+    for f in ep.link.take_frames():
+        if f.get("stype") == 0 and f["s"] == 1 and f["f"] == 13:
+            ep.link.feed(link.hsms_frame(stype=0, system=f["system"], session=0, stream=1, function=14,
+                                         body=s1f14_body(0, peer_is_host)))
+    sched.settle()
+    ep.link.take_frames()
+    return h.communication_state.current.name == "COMMUNICATING"
+
+
+def data_frame(s, f, w, system, body=b"", session=0):
+    return link.hsms_frame(stype=0, system=system, session=session, stream=s, function=f, wbit=w, body=body)
